@@ -38,7 +38,7 @@ try: n=json.load(open(notes))
 except Exception: n={}
 json.dump({"breaks_property":P,"id":X,"summary":n.get("summary",""),"needs_to_manifest":n.get("needs",""),
  "author":"independent sub-agent given only the property text and a scratch worktree",
- "demo_profile":"'+('release' if '--release' in open(notes).read() else 'debug')+'","confirmed_by_me":{"worktree":"scratch git worktree of /repo HEAD under /tmp/seedconfirm (removed afterwards)",
+ "demo_profile":("release" if "--release" in open(notes).read() else "debug"),"confirmed_by_me":{"worktree":"scratch git worktree of /repo HEAD under /tmp/seedconfirm (removed afterwards)",
    "unpatched: cargo test --offline --test demo":bd,"patched: cargo test --offline --lib":wl,"patched: cargo test --offline --test demo":wd},
  "checks_run":[l for l in res.replace('\\n','\n').split('\n') if l]}, open(out,'w'), indent=1)
 PY
